@@ -133,6 +133,13 @@ class RepeatedRawMetaItemWrapper(
             return default
         raise KeyError(index)
 
+    def popitem(self) -> tuple[str, MetaItem]:
+        # MutableMapping.popitem() would take next(iter(self)) for a key, but iteration yields items (sequence side).
+        if not len(self):
+            raise KeyError('popitem(): no meta item')
+        item = super().pop(-1)
+        return item.key, item
+
     def keys(self) -> RepeatedRawMetaKeysView:
         return RepeatedRawMetaKeysView(self)
 
@@ -261,17 +268,26 @@ class RepeatedMetaItemWrapper(
         for i, item in enumerate(self):
             if item.key != index:
                 continue
-            item = super().pop(i)
-            value = item.value
-            if isinstance(value, base.RawModel) and value.token_store:
-                if prev := value.token_store.get_prev(value.first_token):
-                    value.token_store.remove(item.first_token, prev)
-                if next := value.token_store.get_next(value.last_token):
-                    value.token_store.remove(next, item.last_token)
-            return value
+            return self._pop_value(i)[1]
         if not isinstance(default, _Empty):
             return default
         raise KeyError(index)
+
+    def _pop_value(self, index: int) -> tuple[str, Optional[MetaValue]]:
+        item = super().pop(index)
+        value = item.value
+        if isinstance(value, base.RawModel) and value.token_store:
+            if prev := value.token_store.get_prev(value.first_token):
+                value.token_store.remove(item.first_token, prev)
+            if next := value.token_store.get_next(value.last_token):
+                value.token_store.remove(next, item.last_token)
+        return item.key, value
+
+    def popitem(self) -> tuple[str, Optional[MetaValue]]:
+        # MutableMapping.popitem() would take next(iter(self)) for a key, but iteration yields items (sequence side).
+        if not len(self):
+            raise KeyError('popitem(): no meta item')
+        return self._pop_value(-1)
 
     def keys(self) -> RepeatedMetaKeysView:
         return RepeatedMetaKeysView(self)
